@@ -598,6 +598,10 @@ ares_status_t ares_qcache_create(ares_rand_state *rand_state,
                                  unsigned int     max_ttl,
                                  ares_qcache_t  **cache_out);
 void          ares_qcache_flush(ares_qcache_t *cache);
+/*! Bracket a callback that is handed a record owned by the cache: entries
+ *  removed in between stay allocated until the matching unlend. */
+void          ares_qcache_lend(ares_qcache_t *cache);
+void          ares_qcache_unlend(ares_qcache_t *cache);
 ares_status_t ares_qcache_insert(ares_channel_t       *channel,
                                  const ares_timeval_t *now,
                                  const ares_query_t   *query,
